@@ -8,10 +8,24 @@ IMPORTS = ("From Coq Require Import List Ascii String NArith ZArith Bool.\n"
            "From Galaxy.Corr Require Import CorrBase C12c.\n")
 
 THEOREMS = ["selection_order", "ifnames", "ifnames_distinct", "add_order", "del_retry", "del_retry_seq",
-            "isolation", "payload_ok_meaning", "independence"]
+            "isolation", "payload_ok_meaning", "independence", "isolation_concurrent"]
 REFUTED = ["isolation_refuted"]
 DEPS = ["Strs", "Nets", "Pool", "Cni", "CniP", "CorrBase", "C12c", "C12"]
 
+MANIFEST = {
+    "text": "Coq theorems over an executable model of ParsePodNetworkAnnotation / resolveNetworks / getNetworkConf / setNetInterface "
+            "/ CmdAdd / CmdDel (selection_order, ifnames, ifnames_distinct, add_order, del_retry, del_retry_seq for ALL configurations, "
+            "annotations, states and failure scripts; isolation for ALL request histories; independence for ALL interleavings of "
+            "requests with distinct container ids, by a locality + projection + refinement-to-the-sequential-step argument); the "
+            "model is tied to the working tree by running ~320 scenarios / ~1500 requests (quick; exhaustive failure patterns "
+            "for N<=4 + random configurations, both annotation syntaxes, 1-3 containers, sequential and concurrent steps) on the "
+            "REAL daemon over its unix socket with a fake plugin binary, comparing invocations, result class and state files, "
+            "and evaluating the theorems' predicates as monitors on the implementation's plugin log",
+    "note": "trusted: Coq kernel (no axioms), Go harness + fake plugin + fake clientset + python printers, encoding/json's lexer "
+            "(the JSON annotation reaches the model as a tree), ASCII; CNI_ARGS compared as a set; a container id has one pod; "
+            "atomic steps = file operations and plugin executions, same-container requests are not interleaved; F7 (shared "
+            "config map, confirmed on the real daemon) fixed by 6dc20c6, isolation_refuted kept for the old flag",
+}
 KNOWN_FINDINGS = [
     {"id": "F7", "status": "fixed", "commit": "6dc20c6", "tag": "c12-shared-netconf-prevresult",
      "what": "fixed: property=C12 6dc20c6 getNetworkConf handed out the daemon's shared network-config map and CmdAdd wrote "
